@@ -106,6 +106,48 @@ func pScenarios() []pScenario {
 			}
 		})
 	}
+	// more Returns than outstanding borrows, concurrently (a double Return racing the
+	// legitimate one): exactly as many succeed as there were borrows, the others report the
+	// error at once (none waits), and the limit still admits exactly n afterwards
+	for _, n := range []int{1, 2} {
+		n := n
+		add(fmt.Sprintf("limit/n=%d/surplus-returns", n), func(r *vrt.Run) {
+			l := NewLimit(n)
+			l.Borrow()
+			okReturns, errReturns := 0, 0
+			var wg sync.WaitGroup
+			for i := 0; i < 3; i++ {
+				wg.Add(1)
+				go func() {
+					defer wg.Done()
+					err := l.Return()
+					vrt.Obs()
+					switch err {
+					case nil:
+						okReturns++
+					case ErrLimitReturn:
+						errReturns++
+					default:
+						r.Failf("Return: %v", err)
+					}
+				}()
+			}
+			wg.Wait()
+			r.Outcome("ok=%d err=%d", okReturns, errReturns)
+			if okReturns != 1 || errReturns != 2 {
+				r.Failf("one borrow outstanding, three Returns: %d succeeded, %d reported ErrLimitReturn", okReturns, errReturns)
+			}
+			got := 0
+			for i := 0; i < n+1; i++ {
+				if l.TryBorrow() {
+					got++
+				}
+			}
+			if got != n {
+				r.Failf("after the surplus Returns a limit of %d admits %d borrowers", n, got)
+			}
+		})
+	}
 	add("limit/blocking-borrow", func(r *vrt.Run) {
 		l := NewLimit(1)
 		out := 0
